@@ -56,6 +56,7 @@ func runC10(p *Prog, r *Report) {
 	c10R2(p, r)
 	c10R3(p, r)
 	c10R4(p, r)
+	ignoreUnexportedRule(p, r, "C10.R6")
 	r.Rule("C10.R5", "only the target is written: every emitted `=`/`:=`/`++` has a left-hand side derived from assignTo, a fresh local or `_` (same analysis as C04.R2)", 1)
 	sub2 := newReport("C04", r.Tier)
 	c04R1R2(p, sub2, "C04.R1", "C04.R2")
@@ -476,6 +477,7 @@ func runC11(p *Prog, r *Report) {
 	updateFlagRule(p, r, "C11.R7")
 	constructorUnguardedRule(p, r, "C11.R8")
 	updateNoDelegateRule(p, r, "C11.R9")
+	constructorAlwaysUsedRule(p, r, "C11.R10")
 	mustAssignRule(p, r, "C11.R6")
 }
 
